@@ -46,6 +46,17 @@ fn conv_job(conv: Conv, len: usize) -> Job {
   Job::new(format!("{conv:?} L{len}"), move |ch, obs| {
     let _w = world::World::new();
     let mut src = Subject::<'static, V, E>::default();
+    // the source may already carry other subscribers: one that has left again
+    // (still in the subject's list until the next emission) and/or a live one
+    let others = ch.choose(3);
+    ch.label(|| ["conversion is the only subscriber", "an earlier subscriber has unsubscribed", "an earlier subscriber is live"][others].to_string());
+    let other_probe = Probe::new();
+    if others > 0 {
+      let u = src.clone().actual_subscribe(other_probe.clone());
+      if others == 1 {
+        u.unsubscribe();
+      }
+    }
     let cw = Arc::new(CountWaker(AtomicUsize::new(0)));
     let waker = futures::task::waker(cw.clone());
     let mut cx = Context::from_waker(&waker);
@@ -269,8 +280,10 @@ pub fn plan(tier: Tier) -> Plan {
   };
   let mut jobs = vec![];
   for c in [Conv::ToFuture, Conv::CollectToFuture, Conv::ToStream, Conv::Status] {
-    for first in 0..5 {
-      jobs.push(conv_job(c, len).root(vec![first]));
+    for others in 0..3 {
+      for first in 0..5 {
+        jobs.push(conv_job(c, len).root(vec![others, first]));
+      }
     }
   }
   Plan {
